@@ -68,6 +68,8 @@ type DataInput struct {
 	// replace-type entries (C13) and the level they are written at
 	Replace      []ReplaceJ `json:"replace,omitempty"`
 	ReplaceLevel string     `json:"replaceLevel,omitempty"` // root | package | interface | entry
+	// replace-type entry of an unrelated package tree (decoy): must not reach the package under test
+	DecoyReplace *ReplaceJ `json:"decoyReplace,omitempty"`
 	Stream       string     `json:"stream,omitempty"`       // "" main, or the known-finding class probed
 }
 
@@ -578,6 +580,12 @@ func dataConfig(in *DataInput, dir, templ, filename string, formatter string) st
 			}
 		}
 	}
+	if in.DecoyReplace != nil {
+		d := in.DecoyReplace
+		y, _ := decoyPackages(nil)
+		y = strings.Replace(y, "      recursive: true\n", fmt.Sprintf("      recursive: true\n      replace-type:\n        %s:\n          %s:\n            pkg-path: %s\n            type-name: %s\n", d.FromPkg, d.FromName, d.To.Pkg, d.To.Name), 1)
+		cfg.WriteString(y)
+	}
 	return cfg.String()
 }
 
@@ -597,6 +605,12 @@ func (p c14) Run(c *Ctx, raw json.RawMessage) Case {
 	files["dump.templ"] = dataProbe
 	files["reemit.templ"] = reemitProbe
 	files["mocks/doc.go"] = "package mocks\n"
+	if in.DecoyReplace != nil {
+		_, df := decoyPackages(nil)
+		for k, v := range df {
+			files[k] = v
+		}
+	}
 	if err := writeFiles(dir, files); err != nil {
 		return Case{Oracle: fail("harness", "%v", err)}
 	}
@@ -648,7 +662,7 @@ func (p c14) Run(c *Ctx, raw json.RawMessage) Case {
 	if p.prop == "C13" {
 		c13Baseline = nil
 		base := in
-		base.Replace, base.ReplaceLevel = nil, ""
+		base.Replace, base.ReplaceLevel, base.DecoyReplace = nil, "", nil
 		os.WriteFile(filepath.Join(dir, ".mockery.yml"), []byte(dataConfig(&base, dir, "dump.templ", "zz_dump.txt", "noop")), 0o644)
 		rb := c.runMockery(dir, nil, nil)
 		var baseImpl map[string]any
